@@ -14,6 +14,13 @@ use std::collections::HashSet;
 use target_actor::{ActorId, ActorInputMessage, ExecutionKind, TargetActorOutputMessage};
 pub use target_actors::TargetActors;
 
+#[cfg(zinoma_verif)]
+pub mod verif_access {
+    pub use super::builder::*;
+    pub use super::target_actor::*;
+    pub use super::watcher::*;
+}
+
 pub async fn run(
     root_target_ids: Vec<TargetId>,
     watch_option: WatchOption,
